@@ -64,3 +64,23 @@ func (dfs *MutableFS) VerifDump() string {
 	sb.WriteString(fmt.Sprintf(" alloc[highest=%d free=%v]", fs.iNodeGenerator.highestInode, free))
 	return sb.String()
 }
+
+// VerifINodes exposes the inode allocator of the mutable file system on its own, so that its alloc / free histories can
+// be explored much deeper than through whole file system operations.
+type VerifINodes struct{ g iNodeGenerator }
+
+// NewVerifINodes returns an allocator in the state a fresh mutable mount starts with.
+func NewVerifINodes() *VerifINodes {
+	return &VerifINodes{g: iNodeGenerator{highestInode: firstINode, freeInodes: make([]fuseops.InodeID, 0, 16)}}
+}
+
+// Alloc hands out an inode number.
+func (v *VerifINodes) Alloc() uint64 { return uint64(v.g.allocINode()) }
+
+// Free returns an inode number to the allocator.
+func (v *VerifINodes) Free(i uint64) { v.g.freeINode(fuseops.InodeID(i)) }
+
+// Dump renders the allocator's state.
+func (v *VerifINodes) Dump() string {
+	return fmt.Sprintf("highest=%d free=%v", v.g.highestInode, v.g.freeInodes)
+}
